@@ -148,7 +148,11 @@ ObsWr(e) ==
            \* server family; here: it must not answer a request that is well-formed under the connection's secret)
            [o EXCEPT !.wr = @ + 1, !.reps = Put(@, key, Append(Get(@, key, <<>>), b)),
                      \* ... (C03: a request obfuscated with the connection's secret was not recovered by the server)
-                     !.bad = @ \cup Tags({ << C19ReaderErr(r), "C19" >>, << C19ReaderErr(r), "C03" >> })]
+                     !.bad = @ \cup Tags({ << C19ReaderErr(r), "C19" >>, << C19ReaderErr(r), "C03" >>,
+                                            \* the error packet itself is a packet the server wrote: read under the connection's secret
+                                            \* it must be a reply body of the type (C03: cleartext XOR pad), with the ERROR status (C19)
+                                            << lenok /\ w.ty \in {1, 2, 3} /\ ~Dec(ReplyKind(w.ty), clr).ok, "C03" >>,
+                                            << lenok /\ w.ty \in {1, 2, 3} /\ ~(Dec(ReplyKind(w.ty), clr).ok /\ Dec(ReplyKind(w.ty), clr).v.status = ErrStatus(w.ty)), "C19" >> })]
       ELSE [o EXCEPT !.wr = @ + 1, !.bad = @ \cup new,
                 !.acctpend = (o.pend /\ kind = "AcctReply" /\ status = 1 /\ Len(o.sinks) = 0),
                 !.acctb = r.b,
